@@ -124,9 +124,6 @@ func (c *conn) Transport(ctx context.Context, request []byte) (response []byte, 
 
 func (c *conn) Exit(onExit func(), err error) {
 	onExit()
-	if e := recover(); e != nil {
-		err = core.NewPanicError(e)
-	}
 	if err != nil {
 		c.Close(err)
 	}
@@ -150,6 +147,10 @@ func (c *conn) send(request data) error {
 func (c *conn) Send(ctx context.Context, onExit func()) {
 	var err error
 	defer func() {
+		// recover must be called by the deferred function itself
+		if e := recover(); e != nil {
+			err = core.NewPanicError(e)
+		}
 		c.Exit(onExit, err)
 	}()
 	for {
@@ -203,6 +204,10 @@ func (c *conn) receive() (err error) {
 func (c *conn) Receive(ctx context.Context, onExit func()) {
 	var err error
 	defer func() {
+		// recover must be called by the deferred function itself
+		if e := recover(); e != nil {
+			err = core.NewPanicError(e)
+		}
 		c.Exit(onExit, err)
 	}()
 	for {
